@@ -189,8 +189,7 @@ struct Group {
     a: CertificateChainFixture, // honest chain, latest first
     b: CertificateChainFixture, // adversary's chain: own signer sets, own genesis key, internally consistent
     params: ProtocolParameters,
-    signers_a: Box<dyn Fn(u64) -> usize>,
-    signers_b: Box<dyn Fn(u64) -> usize>,
+    na: usize,
     msigs: HashMap<String, SigProv>,
     gsigs: HashMap<String, (u64, String)>,
     next_sig_id: u64,
@@ -214,7 +213,15 @@ fn rehash(c: &mut Certificate) {
     c.hash = c.try_compute_hash().unwrap();
 }
 
+fn n_signers_a(constant: bool, na: usize, e: u64) -> usize {
+    if constant { na } else { 2 + ((e as usize + na) % 3) }
+}
+fn n_signers_b(constant: bool, na: usize, e: u64) -> usize {
+    if constant { na + 1 } else { 5 + ((e as usize + na) % 2) }
+}
 impl Group {
+    fn signers_a(&self, e: u64) -> usize { n_signers_a(self.constant_avk, self.na, e) }
+    fn signers_b(&self, e: u64) -> usize { n_signers_b(self.constant_avk, self.na, e) }
     fn register_chain(&mut self, chain: &CertificateChainFixture, genesis_sk: u64) {
         for c in chain.certificates_chained.iter() {
             match &c.signature {
@@ -234,7 +241,7 @@ impl Group {
     }
     /// re-sign certificate `c` with the adversary's fixture for its epoch (own AVK, valid multi-signature)
     fn resign_b(&mut self, c: &mut Certificate) -> bool {
-        let fx = fixture(&self.params, (self.signers_b)(*c.epoch));
+        let fx = fixture(&self.params, self.signers_b(*c.epoch));
         let Some(ms) = sign_with(&fx, &c.signed_message) else { return false };
         let avk = fx.compute_and_encode_concatenation_aggregate_verification_key();
         c.aggregate_verification_key = avk.as_str().try_into().unwrap();
@@ -252,25 +259,24 @@ impl Group {
 }
 
 fn build_group(rng: &mut Rng, variant: u64) -> Group {
-    let total = rng.range(2, 12);
-    let per_epoch = std::cmp::min(rng.range(1, 4), total);
     let constant_avk = variant % 2 == 1;
+    // constant-AVK groups are where only the epoch rules separate valid from invalid links: keep them long enough
+    let total = if constant_avk { rng.range(7, 12) } else { rng.range(2, 12) };
+    let per_epoch = if constant_avk { rng.range(1, 2) } else { std::cmp::min(rng.range(1, 4), total) };
     let params = [ProtocolParameters::new(5, 100, 0.65), ProtocolParameters::new(4, 80, 0.75), ProtocolParameters::new(6, 120, 0.9)][rng.below(3) as usize].clone();
     let na = rng.range(2, 4) as usize;
-    let signers_a: Box<dyn Fn(u64) -> usize> = if constant_avk { Box::new(move |_| na) } else { Box::new(move |e| 2 + ((e as usize + na) % 3)) };
-    let signers_b: Box<dyn Fn(u64) -> usize> = if constant_avk { Box::new(move |_| na + 1) } else { Box::new(move |e| 5 + ((e as usize + na) % 2)) };
-    let fa = |e: Epoch| (signers_a)(*e);
+    let fa = move |e: Epoch| n_signers_a(constant_avk, na, *e);
     let a = CertificateChainBuilder::new()
         .with_total_certificates(total)
         .with_certificates_per_epoch(per_epoch)
-        .with_protocol_parameters(params.clone())
+        .with_protocol_parameters(params.clone().into())
         .with_total_signers_per_epoch_processor(&fa)
         .build();
-    let fb = |e: Epoch| (signers_b)(*e);
+    let fb = move |e: Epoch| n_signers_b(constant_avk, na, *e);
     let mut b = CertificateChainBuilder::new()
         .with_total_certificates(total)
         .with_certificates_per_epoch(per_epoch)
-        .with_protocol_parameters(params.clone())
+        .with_protocol_parameters(params.clone().into())
         .with_total_signers_per_epoch_processor(&fb)
         .build();
     // the adversary owns its genesis key: re-sign B's genesis and re-hash B bottom-up
@@ -294,7 +300,7 @@ fn build_group(rng: &mut Rng, variant: u64) -> Group {
             old_to_new.insert(old, c.hash.clone());
         }
     }
-    let mut g = Group { a, b, params, signers_a, signers_b, msigs: HashMap::new(), gsigs, next_sig_id: 0, per_epoch, constant_avk };
+    let mut g = Group { a, b, params, na, msigs: HashMap::new(), gsigs, next_sig_id: 0, per_epoch, constant_avk };
     let (a2, b2) = (g.a.clone(), g.b.clone());
     g.register_chain(&a2, 1);
     g.register_chain(&b2, 2);
@@ -418,14 +424,14 @@ fn tamper(rng: &mut Rng, g: &mut Group) -> Tampered {
             let pp = &mut certs[j].metadata.protocol_parameters;
             match rng.below(3) { 0 => pp.k += 1, 1 => pp.m += 1, _ => pp.phi_f = 0.2 }
             if rehash_it { rehash_up(&mut certs, &path, pos); }
-            mk(&format!("parameters/{}", suffix), certs, true, format!("cert {}", j))
+            mk(&format!("parameters/{}", suffix), certs, std_target || !rehash_it, format!("cert {}{}", j, if std_target { "" } else { " (genesis: its own parameters are not constrained by the property)" }))
         }
         10 => {
             // AVK swapped for the adversary's (signature untouched)
-            let fx = fixture(&g.params, (g.signers_b)(*certs[j].epoch));
+            let fx = fixture(&g.params, g.signers_b(*certs[j].epoch));
             certs[j].aggregate_verification_key = fx.compute_and_encode_concatenation_aggregate_verification_key().as_str().try_into().unwrap();
             if rehash_it { rehash_up(&mut certs, &path, pos); }
-            mk(&format!("avk-swap/{}", suffix), certs, true, format!("cert {}", j))
+            mk(&format!("avk-swap/{}", suffix), certs, std_target || !rehash_it, format!("cert {}{}", j, if std_target { "" } else { " (genesis: its own AVK is not constrained by the property)" }))
         }
         11 | 12 => {
             // re-signed by the adversary's fixture: valid multi-signature under the adversary's AVK
@@ -553,14 +559,22 @@ fn boundary(rng: &mut Rng, g: &mut Group, which: u64) -> Option<Tampered> {
     let std: Vec<usize> = (0..n).filter(|&i| !a[i].is_genesis()).collect();
     if std.is_empty() { return None }
     let j = *rng.pick(&std);
-    let ej = *a[j].epoch;
-    let mut c = a[j].clone();
+    let _ = j;
     match which {
         0 | 1 | 2 | 3 => {
             // link to a certificate of epoch ej + d, d in {+1, +2, -2, (and -1/0 as valid controls)}
             let d: i64 = [1, 2, -2, -1][which as usize];
+            // every (certificate, target) pair at epoch distance d; pick one
+            let pairs: Vec<(usize, usize)> = std
+                .iter()
+                .flat_map(|&j| (0..n).filter(move |&q| q != j).map(move |q| (j, q)))
+                .filter(|&(j, q)| *a[q].epoch as i64 == *a[j].epoch as i64 + d && a[q].hash != a[j].previous_hash)
+                .collect();
+            if pairs.is_empty() { return None }
+            let (j, q) = *rng.pick(&pairs);
+            let ej = *a[j].epoch;
+            let mut c = a[j].clone();
             let want = ej as i64 + d;
-            let q = (0..n).find(|&q| *a[q].epoch as i64 == want && q != j)?;
             c.previous_hash = a[q].hash.clone();
             rehash(&mut c);
             let mut t = table_of(&a);
@@ -571,8 +585,11 @@ fn boundary(rng: &mut Rng, g: &mut Group, which: u64) -> Option<Tampered> {
         4 => {
             // epoch field moved to the parent's epoch, everything else untouched, hash recomputed:
             // only the epoch-in-signed-message rule can reject when the AVK is constant
+            let cands: Vec<usize> = std.iter().cloned().filter(|&j| a.iter().any(|p| p.hash == a[j].previous_hash && p.epoch != a[j].epoch)).collect();
+            if cands.is_empty() { return None }
+            let j = *rng.pick(&cands);
+            let mut c = a[j].clone();
             let parent = a.iter().position(|p| p.hash == a[j].previous_hash)?;
-            if a[parent].epoch == a[j].epoch { return None }
             c.epoch = a[parent].epoch;
             rehash(&mut c);
             let mut t = table_of(&a);
@@ -581,8 +598,10 @@ fn boundary(rng: &mut Rng, g: &mut Group, which: u64) -> Option<Tampered> {
         }
         _ => {
             // same-epoch link with the adversary's AVK and a valid adversary multi-signature
-            let parent = a.iter().position(|p| p.hash == a[j].previous_hash)?;
-            if a[parent].epoch != a[j].epoch { return None }
+            let cands: Vec<usize> = std.iter().cloned().filter(|&j| a.iter().any(|p| p.hash == a[j].previous_hash && p.epoch == a[j].epoch)).collect();
+            if cands.is_empty() { return None }
+            let j = *rng.pick(&cands);
+            let mut c = a[j].clone();
             if !g.resign_b(&mut c) { return None }
             rehash(&mut c);
             let mut t = table_of(&a);
@@ -617,8 +636,8 @@ fn run_case(rt: &tokio::runtime::Runtime, g: &Group, t: &Tampered) -> (u64, Stri
         ctx.avk_id(&c.aggregate_verification_key.to_json_hex().unwrap());
     }
     for e in 1..=(g.a.certificates_chained[0].epoch.0 + 2) {
-        for f in [&g.signers_a, &g.signers_b] {
-            let fx = fixture(&g.params, f(e));
+        for n in [g.signers_a(e), g.signers_b(e)] {
+            let fx = fixture(&g.params, n);
             ctx.avk_id(&fx.compute_and_encode_concatenation_aggregate_verification_key());
         }
     }
@@ -645,7 +664,7 @@ fn main() {
     let mut rng = Rng::new(args.seed);
     let mut sink = Sink::new(&args);
     let rt = tokio::runtime::Builder::new_current_thread().enable_all().build().unwrap();
-    let (n_groups, per_group) = if args.thorough { (24, 80) } else { (4, 34) };
+    let (n_groups, per_group) = if args.thorough { (12, 60) } else { (4, 34) };
     for gi in 0..n_groups {
         let mut gr = rng.fork();
         // building a group is expensive: skip it entirely when --only selects a case of another group
